@@ -34,6 +34,11 @@ pub async fn run_swarm_worker(
     server_start_instant: ServerStartInstant,
     worker_index: usize,
 ) -> anyhow::Result<()> {
+    #[cfg(aquatic_verif)]
+    if aquatic_common::verif::probe("ws/swarm/start") {
+        return Ok(());
+    }
+
     let (_, mut control_message_receivers) = control_message_mesh_builder
         .join(Role::Consumer)
         .await
@@ -55,6 +60,11 @@ pub async fn run_swarm_worker(
     // Periodically clean torrents
     TimerActionRepeat::repeat(enclose!((config, torrents, access_list) move || {
         enclose!((config, torrents, access_list) move || async move {
+            #[cfg(aquatic_verif)]
+            if aquatic_common::verif::probe("ws/swarm/clean") {
+                return None;
+            }
+
             torrents.borrow_mut().clean(&config, &access_list, server_start_instant);
 
             Some(Duration::from_secs(config.cleaning.torrent_cleaning_interval))
@@ -105,6 +115,11 @@ where
     S: futures_lite::Stream<Item = SwarmControlMessage> + ::std::marker::Unpin,
 {
     while let Some(message) = stream.next().await {
+        #[cfg(aquatic_verif)]
+        if aquatic_common::verif::probe("ws/swarm/control") {
+            return;
+        }
+
         match message {
             SwarmControlMessage::ConnectionClosed {
                 out_message_consumer_id,
@@ -147,6 +162,11 @@ async fn handle_request_stream<S>(
         .for_each_concurrent(
             SHARED_IN_CHANNEL_SIZE,
             move |(meta, in_message)| async move {
+                #[cfg(aquatic_verif)]
+                if aquatic_common::verif::probe("ws/swarm/request") {
+                    return;
+                }
+
                 let mut out_messages = Vec::new();
 
                 match in_message {
